@@ -120,7 +120,6 @@ pub async fn drive<T>(
     let mut polls = 0usize;
     let mut quiet = 0usize;
     loop {
-        let a = ACTIVITY.load(std::sync::atomic::Ordering::Relaxed);
         let (cw, w) = count_waker();
         let before = cw.0.load(std::sync::atomic::Ordering::SeqCst);
         let mut cx = Context::from_waker(&w);
@@ -138,6 +137,9 @@ pub async fn drive<T>(
             tokio::task::yield_now().await;
             continue;
         }
+        // only what OTHER tasks do while we yield counts as progress (our own poll of a parked
+        // stream touches the pipe every time)
+        let a = ACTIVITY.load(std::sync::atomic::Ordering::Relaxed);
         tokio::task::yield_now().await;
         let woken = cw.0.load(std::sync::atomic::Ordering::SeqCst) != before;
         let act = ACTIVITY.load(std::sync::atomic::Ordering::Relaxed) != a;
@@ -515,8 +517,19 @@ impl World {
             Ok(None) => self.out.push(format!("att:{}=pending", name)),
             Ok(Some(r)) => self.finish_attach(&name, Ok(r)),
         }
-        let hs = wctl.take_written();
-        self.conn(&name).hs_bytes = hs;
+        // handshake bytes (greeting + the READY frame) are kept apart from what follows them
+        let all = wctl.take_written();
+        let mut n = all.len().min(64);
+        if all.len() > 65 {
+            let l = if all[64] & 2 != 0 && all.len() >= 73 {
+                9 + u64::from_be_bytes([all[65], all[66], all[67], all[68], all[69], all[70], all[71], all[72]]) as usize
+            } else {
+                2 + all[65] as usize
+            };
+            n = (64 + l).min(all.len());
+        }
+        wctl.0.lock().written.extend_from_slice(&all[n..]);
+        self.conn(&name).hs_bytes = all[..n].to_vec();
     }
 }
 
@@ -541,8 +554,22 @@ pub fn parse_wplan(s: &str) -> Vec<WAns> {
         .collect()
 }
 
+thread_local! {
+    static RT: std::cell::RefCell<Option<tokio::runtime::Runtime>> = const { std::cell::RefCell::new(None) };
+}
+
+/// One current-thread runtime is reused across cases (building one costs milliseconds); it is
+/// thrown away when a case panics inside it.
+pub fn with_rt<T>(f: impl FnOnce(&tokio::runtime::Runtime) -> T) -> T {
+    let rt = RT
+        .with(|c| c.borrow_mut().take())
+        .unwrap_or_else(|| tokio::runtime::Builder::new_current_thread().enable_all().build().unwrap());
+    let out = f(&rt);
+    RT.with(|c| *c.borrow_mut() = Some(rt));
+    out
+}
+
 pub fn run(args: &[&str]) -> String {
-    let rt = tokio::runtime::Builder::new_current_thread().enable_all().build().unwrap();
     let joined = args.join(" ");
     let mut parts = joined.split(" / ");
     let head: Vec<&str> = parts.next().unwrap().split_whitespace().collect();
@@ -554,20 +581,22 @@ pub fn run(args: &[&str]) -> String {
     }
     let ops: Vec<Vec<String>> = parts.map(|p| p.split_whitespace().map(|s| s.to_string()).collect()).collect();
     let stype = head[0].to_string();
-    let out = rt.block_on(async move {
-        let mut w = World { sock: Some(AnySock::new(&stype, sid)), conns: Vec::new(), out: Vec::new() };
-        for op in &ops {
-            if op.is_empty() {
-                continue;
+    let out = with_rt(|rt| {
+        rt.block_on(async move {
+            let mut w = World { sock: Some(AnySock::new(&stype, sid)), conns: Vec::new(), out: Vec::new() };
+            for op in &ops {
+                if op.is_empty() {
+                    continue;
+                }
+                let toks: Vec<&str> = op.iter().map(|s| s.as_str()).collect();
+                w.op(&toks).await;
             }
-            let toks: Vec<&str> = op.iter().map(|s| s.as_str()).collect();
-            w.op(&toks).await;
-        }
-        let out = w.out.clone();
-        // tear down inside the runtime
-        drop(w);
-        out
+            let out = w.out.clone();
+            // tear down inside the runtime and let the library's tasks wind down
+            drop(w);
+            settle().await;
+            out
+        })
     });
-    drop(rt);
     out.join(" ")
 }
